@@ -53,6 +53,7 @@ struct Snap {
   std::vector<int> area4;                        // computePlacementArea
   std::string rowHeight;                         // value or "throw"
   std::vector<std::vector<int>> solution;        // solution(): x y orient
+  std::vector<std::vector<int>> freeRows;        // computeRows(): rows minus fixed obstructions
 };
 
 static uint32_t fbits(float f) {
@@ -111,6 +112,11 @@ static Snap snap(const Circuit &c) {
     }
   }
   for (const auto &p : c.solution()) s.solution.push_back({p.position.x, p.position.y, (int)p.orientation});
+  try {
+    for (const Row &r : c.computeRows()) s.freeRows.push_back({r.minX, r.maxX, r.minY, r.maxY, (int)r.orientation});
+  } catch (const std::exception &) {
+    s.freeRows.push_back({-1});
+  }
   return s;
 }
 
@@ -124,7 +130,7 @@ static std::string frameDiff(const Snap &a, const Snap &b, bool orientFree) {
   }
   SAME(nbCells) SAME(nbNets) SAME(nbRows) SAME(nbPins) SAME(w) SAME(h) SAME(fixed) SAME(obs) SAME(pol) SAME(area)
   SAME(rows) SAME(netLimits) SAME(pinCells) SAME(rawXo) SAME(rawYo) SAME(netWeightBits) SAME(nbPinsNet)
-  SAME(pinCellGetter) SAME(area4) SAME(rowHeight)
+  SAME(pinCellGetter) SAME(area4) SAME(rowHeight) SAME(freeRows)
 #undef SAME
   if (a.rowHeight == "inconsistent getters") return "indexed getters disagree with vector getters";
   if ((int)b.solution.size() != b.nbCells) return "solution() has the wrong size";
